@@ -176,6 +176,7 @@ func runKV(c KVCase, o *Obs) error {
 	}
 	pub := map[string]kvModel{}
 	allSets := map[string]map[string]bool{} // key -> "t|value" ever passed to Set
+	allTombs := map[string]map[int64]bool{} // key -> times passed to Tombstone
 	now := int64(100000)
 	openHandle := func(perm []int) (*kvHandle, []string, error) {
 		names := trimAll(store.Keys(prefix+"root/current/"), prefix+"root/current/")
@@ -314,6 +315,10 @@ func runKV(c KVCase, o *Obs) error {
 			if err := h.db.Tombstone(ctx, time.Unix(s.T, 0), kn); err != nil {
 				return fmt.Errorf("%s: %v", where, err)
 			}
+			if allTombs[kn] == nil {
+				allTombs[kn] = map[int64]bool{}
+			}
+			allTombs[kn][s.T] = true
 			e := kvEntry{T: s.T, Tomb: s.T}
 			if old, ok := h.model[kn]; ok {
 				if old.Tomb == 0 && old.T > s.T {
@@ -440,10 +445,20 @@ func runKV(c KVCase, o *Obs) error {
 			err := h.db.TraceHistory(ctx, kn, time.Time{}, func(when time.Time, value interface{}) (bool, error) {
 				v := fmt.Sprint(value)
 				if first {
-					first = false
 					if v != e.Val {
 						return false, fmt.Errorf("history starts at %s, the current value is %s", v, e.Val)
 					}
+				}
+				wasFirst := first
+				first = false
+				_ = wasFirst
+				if value == nil {
+					// a tombstone that was committed for the key shows up as (its time, nil)
+					if !first && allTombs[kn][when.Unix()] {
+						times = append(times, when.Unix())
+						return true, nil
+					}
+					return false, fmt.Errorf("history yields (%d, nil) but no Tombstone was issued for that key at that time", when.Unix())
 				}
 				if !allSets[kn][fmt.Sprintf("%d|%s", when.Unix(), v)] {
 					return false, fmt.Errorf("history yields (%d,%s), which was never Set for that key", when.Unix(), v)
